@@ -19,6 +19,11 @@ pub fn run(sc: &Value) -> Value {
     let mut dt = DrawTarget::new(w, h);
     let mut extra = serde_json::Map::new();
     let render = sc["render"].as_bool().unwrap_or(true);
+    let want_edges = sc["want_edges"].as_bool().unwrap_or(false);
+    let mut clip_edges = None;
+    if want_edges {
+        verif_edges::start();
+    }
     let r = std::panic::catch_unwind(std::panic::AssertUnwindSafe(|| {
         dt.set_transform(&ctm);
         match kind {
@@ -30,6 +35,9 @@ pub fn run(sc: &Value) -> Value {
             "fill" => dt.fill(&path, &white, &DrawOptions::new()),
             "clip" => {
                 dt.push_clip(&path);
+                if want_edges {
+                    clip_edges = Some(verif_edges::take());
+                }
                 dt.set_transform(&Transform::identity());
                 dt.fill_rect(0., 0., w as f32, h as f32, &white, &DrawOptions::new());
                 dt.pop_clip();
@@ -37,6 +45,16 @@ pub fn run(sc: &Value) -> Value {
             _ => panic!("bad kind"),
         }
     }));
+    if want_edges {
+        // the edges handed to the rasteriser (device space), in 1/1024 px
+        let q = |v: f32| (v as f64 * 1024.0).round() as i64;
+        let taken = verif_edges::take();
+        let es: Vec<Value> = clip_edges.unwrap_or(taken)
+            .iter()
+            .map(|(a, b, c, k)| json!([q(a.x), q(a.y), q(b.x), q(b.y), if *c { 1 } else { 0 }, if *c { q(k.x) } else { 0 }, if *c { q(k.y) } else { 0 }]))
+            .collect();
+        extra.insert("edges".into(), Value::Array(es));
+    }
     // diagnostics for the I-level dasher specification (not a verdict source)
     if kind == "stroke" && sc["style"].get("dash").is_some() && sc["want_dash_path"].as_bool().unwrap_or(false) {
         let style = parse_style(&sc["style"], den);
